@@ -60,6 +60,23 @@ Theorem Wcbor_dec_enc_partial : forall (O : eopts) (D : dopts) (i : item) (rest 
 Proof. exact dec_enc_lemma. Qed.
 Print Assumptions Wcbor_dec_enc_partial.
 
+(* skip (C11 at the wire level): the second parser nextValueBytes, as used to swallow an unknown
+   struct field (depth d = 1) or to capture a Raw (d = 0), walks exactly one well-formed item of
+   any width / length form and leaves the following bytes untouched; nesting below MaxDepth is
+   counted by the walker since the F14-1 repair *)
+Theorem Wcbor_skip_wellformed : forall (D : dopts) (t : wtree) (d : Z) (rest : list N),
+  twf t -> skippable t -> (d + sdepth t < maxdepth D)%Z ->
+  skip D (fuel_for (ser t ++ rest)) d (ser t ++ rest) = Ok rest.
+Proof. exact skip_ser_lemma. Qed.
+Print Assumptions Wcbor_skip_wellformed.
+
+(* skip_enc (partial as C10_cbor_out_partial): skipping what the encoder wrote consumes exactly it *)
+Theorem Wcbor_skip_enc_partial : forall (O : eopts) (D : dopts) (i : item) (d : Z) (rest : list N),
+  eo_optsize O = false -> wf i -> plain i -> (d + sdepth (tree_of O i) < maxdepth D)%Z ->
+  skip D (fuel_for (enc O i ++ rest)) d (enc O i ++ rest) = Ok rest.
+Proof. exact skip_enc_lemma. Qed.
+Print Assumptions Wcbor_skip_enc_partial.
+
 (* all 65536 half-precision floats: the code's halfFloatToFloatBits (hand-modelled, tied by the
    leaf stream on all 65536 inputs) equals the RFC 8949 Appendix D value; exhaustive (two nested
    256-ranges, vm_compute) *)
@@ -106,3 +123,26 @@ Proof.
   - vm_compute. reflexivity.
   - vm_compute. reflexivity.
 Qed.
+
+Example Wcbor_skip_nonvacuous :
+  twf ex_tree /\ skippable ex_tree /\ (1 + sdepth ex_tree < maxdepth ex_D)%Z /\
+  skip ex_D (fuel_for (ser ex_tree ++ [1; 2; 3])) 1 (ser ex_tree ++ [1; 2; 3]) = Ok [1; 2; 3].
+Proof.
+  split; [| split; [| split]].
+  - cbn. repeat (apply conj || apply Forall_cons || apply Forall_nil || lia || exact I || (cbn; lia)).
+  - cbn. repeat (apply conj || lia || exact I).
+  - vm_compute. reflexivity.
+  - vm_compute. reflexivity.
+Qed.
+
+(* nesting beyond MaxDepth is rejected with the depth error, and a run of tags no longer recurses
+   (instances; the general statements dec_depth / dec_total are not proved, see the report) *)
+Example Wcbor_depth_instances :
+  dec_naked (mkdo false false false 3) 100 [129; 129; 129; 1] = Err EDepth /\
+  dec_naked (mkdo false false false 3) 100 [129; 129; 1] = Ok (IArr [IArr [IUint 1]], []) /\
+  dec_naked (mkdo false false false 3) 100 [198; 198; 198; 1] = Err EDepth /\
+  dec_maxrec (mkdo false false true 3) 100 [198; 198; 198; 198; 198; 198; 129; 1] = 1%nat /\
+  skip (mkdo false false false 3) 100 1 [129; 129; 1] = Err EDepth /\
+  dec_naked (mkdo false false false 0) 100 [155; 255; 255; 255; 255; 128; 0; 0; 0; 1] = Err EOverflow /\
+  skip (mkdo false false false 0) 100 0 [91; 255; 255; 255; 255; 255; 255; 255; 247; 1] = Err EEof.
+Proof. vm_compute. repeat split. Qed.
